@@ -17,6 +17,7 @@ import (
 	"strings"
 	"testing/iotest"
 	"time"
+	"unicode/utf8"
 
 	"golang.org/x/mod/module"
 	"golang.org/x/mod/sumdb/dirhash"
@@ -908,6 +909,42 @@ func c19Trees(c *mon.Ctx) {
 				c.Class("hashdir:names:" + s)
 			}
 			c.Sample("tree", 2, wit(map[string]any{"DirFiles": fmt.Sprintf("%q", files)}))
+
+			// a second look at the same directory after the tree has changed below the root (a file added in
+			// an existing subdirectory — the root's own entries and modification time stay as they were — or,
+			// when there is none, in a new nested one): the hash is the formula over what is there now
+			if len(set)%2 == 0 {
+				sub := ""
+				if ents, err := os.ReadDir(tree); err == nil {
+					for _, e := range ents {
+						if e.Type().IsDir() && e.Name() != "empty-dir" {
+							sub = e.Name()
+							break
+						}
+					}
+				}
+				how := "in-existing-subdirectory"
+				if sub == "" {
+					sub, how = "zz-later/nested", "in-new-subdirectory"
+					os.MkdirAll(filepath.Join(tree, filepath.FromSlash(sub)), 0o777)
+				}
+				added := filepath.ToSlash(sub) + "/zz-added-later.txt"
+				if !utf8.ValidString(added) || os.WriteFile(filepath.Join(tree, filepath.FromSlash(added)), []byte("added after the first look\n"), 0o666) != nil {
+					c.Class("second-look:not-writable-skipped")
+				} else {
+					set2 := append(slices.Clone(set), refhash.File{Name: added, Data: []byte("added after the first look\n")})
+					want2, _ := refhash.Hash1(c19WithPrefix(prefix, set2))
+					var got2 string
+					var gerr2 error
+					call(func(dir string) { got2, gerr2 = dirhash.HashDir(dir, prefix, dirhash.Hash1) })
+					c.Eval(1)
+					if gerr2 != nil || got2 != want2 {
+						c.Violation("hashdir-second-look-not-formula-over-current-tree", id, wit(map[string]any{"dir-form": form, "added": mon.QS(added), "first": got, "second": got2, "want-second": want2, "err": c19ErrStr(gerr2)}))
+						return
+					}
+					c.Class("second-look:" + how)
+				}
+			}
 
 			// an archive/zip archive with the same prefixed entries hashes to the same value
 			zr := rand.New(rand.NewPCG(zseed, 19))
